@@ -3,13 +3,14 @@ C12 — Mailbox = bounded, lossless, linearizable MPSC FIFO without lost wake-up
 
 Theorems about M-QUEUE (Model/Queue.lean).  L0: position arithmetic for every capacity ≥ 1 (power of two or
 not).  L1: every *sequential* history of push / pop / release (drop of the `MessageBorrow`) / close on the
-transliterated queue behaves exactly like the bounded FIFO `Spec` — no bound on the history.  The concurrent
-levels (L2: interleaved producers at atomic-step granularity; L3: sender/receiver notification) are *not*
-proved here: they are covered by the correspondence only (real-thread runs with per-producer sequence
-numbers and a closer thread; blocked-sender scenarios of the `net` engine) — see DESIGN.md.
+transliterated queue behaves exactly like the bounded FIFO `Spec` — no bound on the history.  L2 (M-QUEUE-C): any
+number of producers interleaved at atomic-step granularity.  L3 (M-CHAN): the sender / receiver notification protocol
+of `channel.rs` on top of the queue — no lost wake-up.  All sequentially consistent; weak-memory effects are outside
+(the orderings of the queue's atomic operations are pinned by `queue_program_shape`).
 -/
 import NexoVerif.Lemmas.QueueRefine
 import NexoVerif.Lemmas.QueueCThm
+import NexoVerif.Lemmas.ChanThm
 import NexoVerif.Extracted
 
 namespace NexoVerif.Queue
@@ -346,3 +347,90 @@ theorem queue_program_shape :
     Extracted.queueClose = [.rmw "enqueue_pos" "fetch_or" .relaxed] := by decide
 
 end NexoVerif.CQ
+
+/-! ## L3 — no lost wake-up (M-CHAN)
+
+`Sender::send` waits on an `async_event::Event` with `queue.push` as the predicate and notifies the receiver's
+`DiatomicWaker` after a successful push; `Receiver::recv` waits on the `DiatomicWaker` with `queue.pop` as the
+predicate, drops the popped message (which frees its slot) and calls `notify_one` on the `Event`.  M-CHAN has any
+number of senders, the lock-protected operations of the wait set as atomic steps, spurious polls, and every
+interleaving.  The queue is the two counters that M-QUEUE-C justifies (Full exactly when full, Empty exactly when
+empty). -/
+namespace NexoVerif.Chan
+
+/-- read from `channel.rs`: the receiver notifies a sender after *every* pop -/
+def notifiesAlways : Bool := Extracted.chanRecvNotifiesAfterEveryPop
+
+/-- **channel_protocol_shape** — what M-CHAN takes from the source, read on every run: the predicates of the two waits,
+the unconditional `notify_one` after the popped message is dropped and before the handler is awaited, the receiver
+notification after a successful push, the types of the two signals, and the versions of the two signalling crates
+whose protocol M-CHAN models from their source. -/
+theorem channel_protocol_shape :
+    Extracted.chanRecvWaitsOnPop = true ∧ Extracted.chanRecvNotifiesAfterEveryPop = true ∧
+    Extracted.chanSendWaitsOnPush = true ∧ Extracted.chanSendNotifiesReceiver = true ∧
+    Extracted.chanSignalTypes = true ∧
+    Extracted.chanSignalCrates = ["async-event 0.2.1", "diatomic-waker 0.2.3"] := by decide
+
+/-- **no_sender_or_receiver_sleeps_through_a_wakeup** — for any number of senders and every interleaving: in every
+reachable state in which nothing is in progress (every sender idle or asleep in the wait set, the receiver asleep with
+its waker registered or busy elsewhere), a sender sleeps only while the mailbox is full and the receiver sleeps only
+while it is empty. -/
+theorem no_sender_or_receiver_sleeps_through_a_wakeup {n cap : Nat} {s : St} (hr : Reach n cap notifiesAlways s)
+    (hq : Quiescent s) : (∀ i, Sleeping s i → s.occ = s.cap) ∧ (RSleeping s → s.msgs = 0) := by
+  have : notifiesAlways = true := by decide
+  rw [this] at hr
+  exact no_lost_wakeup hr hq
+
+/-- **a_wakeup_is_always_on_its_way** — in *every* reachable state: while a sender sleeps and a slot is free, the
+receiver is about to notify or some sender outside the wait set is about to look at the queue again (or to pass its
+notification on) — and that sender has a step; while the receiver sleeps and a message is queued, the sender that
+pushed it is about to notify the receiver. -/
+theorem a_wakeup_is_always_on_its_way {n cap : Nat} {s : St} (hr : Reach n cap notifiesAlways s) :
+    ((∃ i, Sleeping s i) → s.occ < s.cap →
+      s.rpc = .notify ∨ ∃ j, j < s.n ∧ s.inset j = false ∧
+        (s.spc j = .rm ∨ s.spc j = .try1 ∨ s.spc j = .try2 ∨ s.spc j = .cancel ∨ s.spc j = .pending) ∧
+        ∃ l, (step l s).isSome = true) ∧
+    (RSleeping s → 0 < s.msgs → ∃ j, j < s.n ∧ (s.spc j = .cancel ∨ s.spc j = .notifyRecv)) := by
+  have : notifiesAlways = true := by decide
+  rw [this] at hr
+  have h := wakeup_in_flight hr
+  refine ⟨fun hsl hroom => ?_, h.2⟩
+  rcases h.1 hsl hroom with e | ⟨j, hj, hb, hp⟩
+  · exact Or.inl e
+  · exact Or.inr ⟨j, hj, hb, hp, holder_can_move j hj hb hp⟩
+
+/-- **mailbox_counters_stay_consistent** — never more occupied slots than the capacity, and the poppable messages
+plus the one the receiver may be holding never exceed the occupied slots. -/
+theorem mailbox_counters_stay_consistent {n cap : Nat} {s : St} (hr : Reach n cap notifiesAlways s) :
+    s.occ ≤ s.cap ∧ s.msgs + rborrow s ≤ s.occ := by
+  have : notifiesAlways = true := by decide
+  rw [this] at hr
+  exact ⟨(reach_inv hr).occLe, (reach_inv hr).msgsLe⟩
+
+/-- **notifying_only_when_leaving_full_loses_a_wakeup** — the rule "notify a sender only if the pop left the full
+state" is not enough: capacity 2, four senders, a 26-step run ends with nothing in progress, a sender asleep in the
+wait set and a free slot (by evaluation). -/
+theorem notifying_only_when_leaving_full_loses_a_wakeup :
+    (runLabels lostSchedule (St.init 4 2 false)).map
+      (fun s => (quiescentB s, s.spc 3 == .pending && s.inset 3, s.occ, s.cap)) = some (true, true, 1, 2) :=
+  notify_only_when_leaving_full_loses_a_wakeup
+
+-- non-vacuity: a reachable state with nothing in progress and a sender asleep (the mailbox is full)
+example : ∃ s, Reach 2 1 true s ∧ Quiescent s ∧ Sleeping s 1 ∧ s.occ = s.cap := by
+  let ls : List Label := [.sBegin 0, .sTry1 0, .sNotify 0, .sBegin 1, .sTry1 1, .sInsert 1, .sTry2 1]
+  have key : (runLabels ls (St.init 2 1 true)).map
+      (fun s => (quiescentB s, s.spc 1 == .pending && s.inset 1, s.occ, s.cap, s.n)) = some (true, true, 1, 1, 2) := by
+    decide
+  cases hrun : runLabels ls (St.init 2 1 true) with
+  | none => rw [hrun] at key; cases key
+  | some s =>
+    rw [hrun] at key
+    simp only [Option.map_some, Option.some.injEq, Prod.mk.injEq] at key
+    obtain ⟨hq, hsl, ho, hc, hn⟩ := key
+    refine ⟨s, runLabels_reach _ _ _ Reach.init hrun, ?_, ?_, by omega⟩
+    · simp only [quiescentB, Bool.and_eq_true, List.all_eq_true, List.mem_range, Bool.or_eq_true, beq_iff_eq] at hq
+      exact ⟨fun i hi => by simpa using hq.1 i hi, by simpa using hq.2⟩
+    · simp only [Bool.and_eq_true, beq_iff_eq] at hsl
+      exact ⟨by omega, hsl.1, hsl.2⟩
+
+end NexoVerif.Chan
